@@ -232,7 +232,7 @@ def _dispatch(j):
 
 
 def run(tier, seed):
-    n = 84 if tier == "quick" else 1000
+    n = 84 if tier == "quick" else 360
     res = Result()
     for r in core.pmap(_dispatch, [(job, (seed, i, tier)) for i in range(n)] + [(witness_job, None)]):
         res.merge(r)
